@@ -251,6 +251,10 @@ def run(idx, rep, tier):
             init = lp.init_slot(l, cert["counter_slot"])
             init_ok = isinstance(init, ast.Constant) and init.value in (0, 1)
             v = ok if ok is not True else (True if init_ok else None)
+            if v is True and not ((init.value == 0 and cert["strict"]) or (init.value == 1 and not cert["strict"])):
+                # a counter that starts at 0 admits max_iters steps with `<`, one more with `<=` (and conversely when it starts at 1)
+                v, why = False, (f"the counter starts at {init.value} and the cap conjunct compares with `{'<' if cert['strict'] else '<='}`: "
+                                 f"{'max_iters + 1' if not cert['strict'] else 'max_iters - 1'} blocks of probes are drawn when the cap is what stops the loop")
             rep.decide(v, "loop-cap", construct, f"cond contains `{cert['expr']}`" + (" behind a first-iteration guard" if cert["first_iter_guard"] else "") + f"; {why}; initial counter `{ast.unparse(init) if init is not None else '?'}`",
                        locs=[idx.loc(hutch.module, l.call)], detail="" if v is not False else "counter")
         # ---------------------------------------------------------- clause 6: probe conjugation
